@@ -13,9 +13,11 @@ inline void gxyz(Rng& r, real a, real& X, real& Y, real& Z) {
 
 inline void register_c() {
   add("sh.value", "SphericalHarmonic", 1, true, [](const Shared* S, Rng& r, Res& o, int pv) {
-    real X, Y, Z, gx, gy, gz; gxyz(r, S->P.a, X, Y, Z); o.d(VAR(shv)(X, Y, Z)); o.d(VAR(shv)(X, Y, Z, gx, gy, gz)); o.d(gx); o.d(gy); o.d(gz); });
+    real X, Y, Z, gx, gy, gz; gxyz(r, S->P.a, X, Y, Z);
+    if (pv / 1000 == 2) { real rr = std::hypot(std::hypot(X, Y), Z), sc = S->P.a * r.uniform(1.01, 2) / (rr > 0 ? rr : 1); X *= sc; Y *= sc; Z *= sc; }   // high degree: stay outside the sphere
+    o.d(VAR(shv)(X, Y, Z)); o.d(VAR(shv)(X, Y, Z, gx, gy, gz)); o.d(gx); o.d(gy); o.d(gz); });
   add("sh.circle", "SphericalHarmonic", 1, true, [](const Shared* S, Rng& r, Res& o, int pv) {
-    real a = S->P.a, gx = -1, gy = -2, gz = -3; CircularEngine c = VAR(shv).Circle(a * r.uniform(0, 2), a * r.uniform(-2, 2), r.coin());
+    real a = S->P.a, gx = -1, gy = -2, gz = -3; CircularEngine c = VAR(shv).Circle(a * (pv / 1000 == 2 ? r.uniform(1.01, 2) : r.uniform(0, 2)), a * r.uniform(-2, 2), r.coin());
     real lon = glon(r); o.d(c(lon)); try { o.d(c(lon, gx, gy, gz)); o.d(gx); o.d(gy); o.d(gz); } catch (const GeographicErr&) { o.i(-1); }
     o.i(VAR(shv).Coefficients().nmx()); o.i(VAR(shv).Coefficients().mmx()); });
   add("sh1.value", "SphericalHarmonic1", 1, true, [](const Shared* S, Rng& r, Res& o, int pv) {
@@ -31,8 +33,8 @@ inline void register_c() {
     real lon = glon(r); o.d(c(lon)); o.d(c(lon, gx, gy, gz)); o.d(gx); o.d(gy); o.d(gz); });
   add("circularengine.value", "CircularEngine", 2, true, [](const Shared* S, Rng& r, Res& o, int pv) {
     real lon = glon(r), gx, gy, gz, sl = std::sin(lon), cl = std::cos(lon);
-    o.d(S->ce(lon)); o.d(S->ce(sl, cl)); o.d(S->ceg(lon)); o.d(S->ceg(lon, gx, gy, gz)); o.d(gx); o.d(gy); o.d(gz);
-    o.d(S->ceg(sl, cl, gx, gy, gz)); o.d(gx); o.d(gy); o.d(gz); });
+    o.d(S->ce()(lon)); o.d(S->ce()(sl, cl)); o.d(S->ceg()(lon)); o.d(S->ceg()(lon, gx, gy, gz)); o.d(gx); o.d(gy); o.d(gz);
+    o.d(S->ceg()(sl, cl, gx, gy, gz)); o.d(gx); o.d(gy); o.d(gz); });
 
   add("gravity.gravity", "GravityModel", 1, true, [](const Shared* S, Rng& r, Res& o, int pv) {
     real gx, gy, gz, lat = glat(r), lon = glon(r), h = gh(r);
@@ -98,14 +100,22 @@ inline void register_c() {
   add_variant("magnetic.", "magnetic-trunc.", "MagneticModel(earth,Nmax,Mmax)", 1);
   add_variant("magneticcircle.", "magneticcircle-trunc.", "MagneticCircle(of truncated model)", 1);
 
+  // the harmonic object that is constructed before the barrier but evaluated for the first time by the worker threads,
+  // at a degree larger than anything evaluated earlier in the process (documented protocol: constructing the object is
+  // enough, SphericalEngine::RootTable is never called by the harness)
+  add_variant("sh.", "shfresh.", "SphericalHarmonic(first evaluation after barrier)", 2);
+  for (auto& o : registry())
+    if (o.cls.compare(0, 14, "CircularEngine") == 0 || o.cls.compare(0, 13, "GravityCircle") == 0 || o.cls.compare(0, 14, "MagneticCircle") == 0)
+      o.needs_circle = true;
+
   add("geoid.bilinear", "Geoid(threadsafe)", 3, true, [](const Shared* S, Rng& r, Res& o, int pv) {
-    real lat = glat(r), lon = glon(r); o.d(S->geob(lat, lon)); o.d(S->geob.ConvertHeight(lat, lon, 10, Geoid::GEOIDTOELLIPSOID));
-    o.d(S->geob(lat, lon)); });
+    real lat = glat(r), lon = glon(r); o.d(S->geob()(lat, lon)); o.d(S->geob().ConvertHeight(lat, lon, 10, Geoid::GEOIDTOELLIPSOID));
+    o.d(S->geob()(lat, lon)); });
   add("geoid.cubic", "Geoid(threadsafe)", 3, true, [](const Shared* S, Rng& r, Res& o, int pv) {
-    real lat = glat(r), lon = glon(r); o.d(S->geoc(lat, lon)); o.d(S->geoc.ConvertHeight(lat, lon, 10, Geoid::ELLIPSOIDTOGEOID));
-    o.d(S->geoc(lat + 1e-9, lon)); });
+    real lat = glat(r), lon = glon(r); o.d(S->geoc()(lat, lon)); o.d(S->geoc().ConvertHeight(lat, lon, 10, Geoid::ELLIPSOIDTOGEOID));
+    o.d(S->geoc()(lat + 1e-9, lon)); });
   add("geoid.accessors", "Geoid(threadsafe)", 0.5, true, [](const Shared* S, Rng& r, Res& o, int pv) {
-    const Geoid& g = r.coin() ? S->geob : S->geoc; o.str(g.Description()); o.str(g.DateTime()); o.str(g.GeoidName()); o.str(g.Interpolation());
+    const Geoid& g = r.coin() ? S->geob() : S->geoc(); o.str(g.Description()); o.str(g.DateTime()); o.str(g.GeoidName()); o.str(g.Interpolation());
     o.d(g.MaxError()); o.d(g.RMSError()); o.d(g.Offset()); o.d(g.Scale()); o.b(g.ThreadSafe()); o.b(g.Cache()); o.d(g.CacheWest()); o.d(g.CacheEast());
     o.d(g.CacheNorth()); o.d(g.CacheSouth()); o.d(g.EquatorialRadius()); o.d(g.Flattening());
     // cache-changing calls are refused on a thread-safe object (documented): the refusal must be consistent too
